@@ -265,6 +265,7 @@ fn gen_c07(seed: u64, tier: Tier) -> Scenario {
     sc.config = gen_config(&mut rng, &dom);
     if long {
         sc.config.chunk = *rng.pick(&[1usize, 1, 1, 2, 3]);
+        sc.config.sub_chunks = 1;
         if sc.config.kind.is_sinc() {
             sc.config.kernel = Kernel::Probe;
         }
@@ -321,11 +322,11 @@ pub fn fft_blocks(cfg: &Config) -> (u64, u64) {
         Kind::FftInOut => (cfg.chunk as u64 + min_in - 1) / min_in,
         Kind::FftIn => {
             let w = (cfg.chunk / cfg.sub_chunks.max(1)) as u64;
-            (w + min_in - 1) / min_in
+            ((w + min_in - 1) / min_in).max(1)
         }
         _ => {
             let w = (cfg.chunk / cfg.sub_chunks.max(1)) as u64;
-            (w + min_out - 1) / min_out
+            ((w + min_out - 1) / min_out).max(1)
         }
     };
     (k * min_in, k * min_out)
